@@ -22,6 +22,8 @@ MIXIN_YAML = {"apis": [{"name": "google.longrunning.Operations"}, {"name": "goog
                                  {"selector": "google.longrunning.Operations.ListOperations", "get": "/v1/{name=operations}"},
                                  {"selector": "google.longrunning.Operations.CancelOperation", "post": "/v1/{name=operations/*}:cancel", "body": "*"},
                                  {"selector": "google.longrunning.Operations.DeleteOperation", "delete": "/v1/{name=operations/*}"},
+                                 # a rule with no standard-verb binding: the rpc is exposed, REST has nothing to call
+                                 {"selector": "google.longrunning.Operations.WaitOperation", "custom": {"kind": "HEAD", "path": "/v1/{name=operations/*}:wait"}},
                                  {"selector": "google.cloud.location.Locations.GetLocation", "get": "/v1/{name=projects/*/locations/*}",
                                   "additional_bindings": [{"get": "/v1/{name=organizations/*/locations/*}"}]},
                                  {"selector": "google.cloud.location.Locations.ListLocations", "get": "/v1/{name=projects/*}/locations"},
